@@ -79,20 +79,23 @@ RAISERS = [
     ("quote-sugar", "(zq_id '(a b) (/ 1 0))", "ZeroDivisionError"),
 ]
 
-PRELUDE = """(defmacro zq-boom [] '(/ 1 0))
-(defmacro zq-wrap [x] `(do ~x))
-(defmacro zq-plus [x] `(let [t# 1] (+ t# ~x)))
-(defmacro zq-deffn [] '(defn zq-made [] (/ 1 0)))
-(defreader zq-ratio
-  (setv a (.parse-one-form &reader)
-        b (.parse-one-form &reader))
-  `(do
-     (setv zq-last-ratio (/ ~a ~b))
-     zq-last-ratio))
-(defreader zq-deep
-  (setv a (.parse-one-form &reader))
-  `(if True (do (setv zq-deep-v [(+ 1 (get [~a] 0))]) zq-deep-v) None))
-"""
+PRELUDE_PARTS = [
+    ("zq-boom", "(defmacro zq-boom [] '(/ 1 0))\n"),
+    ("zq-wrap", "(defmacro zq-wrap [x] `(do ~x))\n"),
+    ("zq-plus", "(defmacro zq-plus [x] `(let [t# 1] (+ t# ~x)))\n"),
+    ("zq-deffn", "(defmacro zq-deffn [] '(defn zq-made [] (/ 1 0)))\n"),
+    ("zq-ratio", "(defreader zq-ratio\n  (setv a (.parse-one-form &reader)\n        b (.parse-one-form &reader))\n"
+                 "  `(do\n     (setv zq-last-ratio (/ ~a ~b))\n     zq-last-ratio))\n"),
+    ("zq-deep", "(defreader zq-deep\n  (setv a (.parse-one-form &reader))\n"
+                "  `(if True (do (setv zq-deep-v [(+ 1 (get [~a] 0))]) zq-deep-v) None))\n"),
+]
+
+
+def prelude_for(text):
+    """only the macro / reader-macro definitions the program uses (each costs a compile-time evaluation)"""
+    # the leading comment keeps every form off line 1, the line an unpositioned model reports
+    return "; c17 program\n" + "".join(part for name, part in PRELUDE_PARTS if name in text)
+
 
 # contexts: text with the hole «H»; the raising form is evaluated when the program runs
 CONTEXTS = [
@@ -191,8 +194,7 @@ class Case:
 
 def layout(rng, ctx_text, raiser_text, n_before, n_after):
     """-> (source, (first line, last line) of the raising form)"""
-    indent = ""
-    parts = [PRELUDE]
+    parts = [prelude_for(ctx_text + raiser_text)]
     for _ in range(n_before):
         parts.append(rng.choice(FILLERS))
     before = "\n".join(parts) + "\n"
@@ -289,7 +291,7 @@ def traceback_oracle(chk, hy, thorough):
     for sid, ctext, rtext, exc in SPECIAL:
         for lay in range(4):
             k += 1
-            parts = [PRELUDE] + [rng.choice(FILLERS) for _ in range(rng.randint(0, 4))]
+            parts = [prelude_for(ctext)] + [rng.choice(FILLERS) for _ in range(rng.randint(0, 4))]
             before = "\n".join(parts) + "\n"
             start = before.count("\n") + 1 + ctext[:ctext.index(rtext)].count("\n")
             src = before + ctext + "\n"
